@@ -13,15 +13,33 @@ BAD_KINDS = ["shape", "rank", "scalar", "dtype_unsafe", "missing", "container", 
 
 def md_value(code: int, style: int = 0):
     """The JSON value standing for metadata code `code` (0 = falsy).  The shape of the value is a
-    function of the code alone, so equal codes are equal values."""
+    function of the code alone, so equal codes are equal values.  Every non-empty value carries the
+    code at the top level *and* inside nested containers (so that sharing of nested parts shows)."""
     if code == 0:
         return None if style % 2 == 0 else {}
-    style = code
-    if style % 3 == 0:
-        return {"k": code}
-    if style % 3 == 1:
-        return {"k": code, "n": {"l": [code, str(code)]}}
-    return {"k": str(code), "flag": True, "z": [1.5, None]}
+    v = {"k": code, "n": {"l": [code, str(code)]}}
+    if code % 2 == 0:
+        v["z"] = [1.5, None, True, {"deep": [code]}]
+    return v
+
+
+def md_mutate(d: dict, code: int, nested: bool):
+    """Change the caller's object in place to the value of `code`: either by replacing the
+    top-level items, or (nested=True) by editing the nested containers it already has."""
+    if code == 0 or not d or not nested:
+        d.clear()
+        d.update(md_value(code) or {})
+        return
+    new = md_value(code)
+    d["k"] = code
+    d["n"]["l"][0] = code
+    d["n"]["l"][1] = str(code)
+    if "z" in new and "z" in d:
+        d["z"][3]["deep"][0] = code
+    elif "z" in new:
+        d["z"] = new["z"]
+    else:
+        d.pop("z", None)
 
 
 def md_code(value) -> int:
@@ -37,7 +55,7 @@ def gen_session(rng, eps: int, *, n_ops: int, splits: int, md_mode: str, bad_rat
     objs = list(range(rng.choice([1, 2, 3])))
     for _ in range(n_ops):
         if mutate and objs and rng.random() < 0.15:
-            ops.append(["mut", rng.choice(objs), rng.choice([0, 1, 2, 3])])
+            ops.append(["mut", rng.choice(objs), rng.choice([0, 1, 2, 3, 4]), rng.random() < 0.6])
             continue
         s = rng.randrange(splits)
         if md_mode == "none":
@@ -123,11 +141,9 @@ def run_impl(root: Path, fmt: str, eps: int, sessions, attrs, reopen: bool):
             with ds.filler() as f:
                 for op in ops:
                     if op[0] == "mut":
-                        _, o, code = op
+                        o, code = op[1], op[2]
                         d = objs.setdefault(o, {}); styles.setdefault(o, o)
-                        d.clear()
-                        v = md_value(code)
-                        d.update(v or {})
+                        md_mutate(d, code, nested=(len(op) > 3 and bool(op[3])))
                         continue
                     _, s, o, kind, _ = op
                     ex += 1
